@@ -47,11 +47,13 @@ def run(tier, seed, replay=None):
         scns = []
         for init, steps in tours:
             covered.update(steps)
-            scns.append({"steps": [edges[i][1][0] for i in steps]})
+            # two out of three launches observe only the mapping built for the child
+            scns.append({"steps": [dict(edges[i][1][0], real=(rng.random() < 0.34)) if edges[i][1][0]["cmd"] == "launch" else edges[i][1][0] for i in steps]})
         res.coverage["graph_edges"] = len(edges)
         res.coverage["graph_states"] = len(states)
         res.coverage["edges_in_tours"] = len(covered)
         scns += [{"steps": [dict({"k": "", "v": 0}, **s) for s in p]} for p in PINNED]
+        scns += [{"steps": [dict({"k": "", "v": 0, "real": False}, **s) for s in p]} for p in PINNED]
         scns.append({"sweep": True})
     traces = pool.run("envdetype", scns, hooks=False)
     bad_workers = [t for t in traces if "steps" not in t]
@@ -88,6 +90,6 @@ def run(tier, seed, replay=None):
     cov.update(res.coverage)
     core.write_evidence(res, "model_checking", cov, assumptions=[
         "variables under test: $MULTILINE_PROMPT (str), $VI_MODE (bool), $CDPATH (path list); values are versions decoded from the child's strings",
-        "the stale-cache deviation is kept in the model as a self-test; it is not reachable through real launches on the pinned tree (command execution reads mutable values and drops the cache)",
+        "each launch is observed twice: the mapping SubprocSpec.prep_env_subproc builds (cache-served) and the environment of a real child started through the whole command path",
     ])
     return core.finish(res)
